@@ -55,6 +55,18 @@ def observe(spec, inputs):
             return out
         if spec["part"] == "history":
             return _history(n, spec, out)
+        if spec["part"] == "repeat":
+            m = plspec.build(n, spec["model"], {})
+            out["snap"] = C.snapshot(n, plspec.build(n, spec["model"], {}))
+            f = getattr(m, spec["op"])
+
+            def interp(x):
+                return {l: (v if spec["form"] == "int" else (v, v)) for l, v in x.items()}
+            f(interp(inputs["x1"]))
+            r = f(interp(inputs["x2"]))
+            r = r[m.id] if spec["op"] == "evaluate_propositions" else r
+            out["r2"] = [int(r.lower), int(r.upper)]
+            return out
         m = plspec.build(n, spec["model"], env)
         out["before"] = _snap(n, m)
         arg = {k: v for k, (p, v) in inputs.get("arg", {}).items() if p}
@@ -156,6 +168,12 @@ def _history(n, spec, out):
 def judge(spec, inputs, out, ob):
     if out["error"] is not None:
         return True, "raised: " + out["error"]
+    if spec["part"] == "repeat":
+        t = C.snap_eval(_t(out["snap"]), inputs["x2"])
+        if out["r2"] != [t, t]:
+            return True, "%s(%s) after %s(%s) on the same object returned %s, the truth function gives %d | model=%s" % (
+                spec["op"], inputs["x2"], spec["op"], inputs["x1"], out["r2"], t, plspec.show(spec["model"]))
+        return False, ""
     if spec["part"] == "history":
         bad = []
         if out["d1"]:
